@@ -703,6 +703,20 @@ pub fn write_token(b: &mut [u8], kind: u8, id: u32) {
     b[17..19].copy_from_slice(&w.to_le_bytes());
 }
 /// (kind, id, width)
+/// like `untoken`, but a byte string that merely starts with the token magic (e.g. the first 8 bytes of a token read as a
+/// u64 and widened again) is not a token: None instead of a panic
+pub fn untoken_lenient(b: &[u8]) -> Option<(u8, u32, usize)> {
+    if b.len() >= TOKEN_LEN && b[..8] == MAGIC {
+        let epoch = u32::from_le_bytes([b[13], b[14], b[15], b[16]]);
+        let cur = with(|a| a.epoch);
+        let w = u16::from_le_bytes([b[17], b[18]]) as usize;
+        if epoch != cur || w != b.len() {
+            return None;
+        }
+        return Some((b[8], u32::from_le_bytes([b[9], b[10], b[11], b[12]]), w));
+    }
+    None
+}
 pub fn untoken(b: &[u8]) -> Option<(u8, u32, usize)> {
     if b.len() >= TOKEN_LEN && b[..8] == MAGIC {
         let epoch = u32::from_le_bytes([b[13], b[14], b[15], b[16]]);
